@@ -437,8 +437,20 @@ func (g *G) Value(t cadence.Type, d int) cadence.Value {
 		}
 		var pairs []cadence.KeyValuePair
 		seen := map[string]bool{}
+		// half of the dictionaries draw their keys from pools that mix signs, magnitudes
+		// (encoded lengths) and path domains, so that every notion of key order differs
+		mixed := g.chance(1, 2)
+		if mixed && n < 2 && d > 0 {
+			n = 2 + g.intn(2)
+		}
 		for i := 0; i < n; i++ {
-			k := g.Value(t.KeyType, 1)
+			var k cadence.Value
+			if mixed {
+				k = g.mixedKey(t.KeyType)
+			}
+			if k == nil {
+				k = g.Value(t.KeyType, 1)
+			}
 			ks := KeyString(k)
 			if seen[ks] {
 				continue
@@ -488,6 +500,122 @@ func (g *G) Value(t cadence.Type, d int) cadence.Value {
 		return g.compositeValue(cands[0], d)
 	}
 	panic("vgen: cannot build a value of type " + t.ID())
+}
+
+var mixedKeyMagnitudes = []int64{0, 1, 23, 24, 100, 127, 128, 255, 256, 1000, 65535, 65536, 1 << 32, 1 << 40}
+
+// mixedKey draws a dictionary key of (a concretisation of) type t from a pool
+// mixing signs, magnitudes (1..9 byte CBOR heads, bignums), path domains and
+// string lengths; nil when t has no such pool.
+func (g *G) mixedKey(t cadence.Type) cadence.Value {
+	p, ok := t.(cadence.PrimitiveType)
+	if !ok {
+		return nil
+	}
+	switch p {
+	case cadence.HashableStructType, cadence.NumberType, cadence.SignedNumberType, cadence.IntegerType, cadence.SignedIntegerType,
+		cadence.FixedPointType, cadence.SignedFixedPointType, cadence.PathType, cadence.CapabilityPathType:
+		// an abstract key type: one of the pooled concrete kinds it admits
+		var cands []cadence.PrimitiveType
+		for _, c := range concat(SignedIntegerTypes, []cadence.PrimitiveType{cadence.Fix64Type, cadence.StringType}, PathTypes) {
+			if Conformable(t, c) {
+				cands = append(cands, c)
+			}
+		}
+		if len(cands) == 0 {
+			return nil
+		}
+		p = pick(g, cands)
+	}
+	magnitude := func() *big.Int {
+		m := big.NewInt(pick(g, mixedKeyMagnitudes))
+		if g.chance(1, 8) {
+			m.Lsh(big.NewInt(1), uint(64+g.intn(60)))
+		}
+		return m
+	}
+	if _, isInt := intInfo[p]; isInt {
+		min, max := IntRange(p)
+		v := magnitude()
+		if min == nil || min.Sign() < 0 {
+			if g.chance(1, 2) {
+				v.Neg(v)
+				v.Sub(v, big.NewInt(int64(g.intn(2)))) // -m or -m-1
+			}
+		}
+		if min != nil && v.Cmp(min) < 0 {
+			v.Set(min)
+		}
+		if max != nil && v.Cmp(max) > 0 {
+			v.Set(max)
+		}
+		return MakeInt(p, v)
+	}
+	switch p {
+	case cadence.Fix64Type:
+		v := magnitude()
+		if !v.IsInt64() {
+			v = big.NewInt(1 << 40)
+		}
+		x := v.Int64() * 1000
+		if g.chance(1, 2) {
+			x = -x - 1
+		}
+		return cadence.Fix64(x)
+	case cadence.UFix64Type:
+		v := magnitude()
+		if !v.IsUint64() {
+			v = big.NewInt(1 << 40)
+		}
+		return cadence.UFix64(v.Uint64())
+	case cadence.StoragePathType, cadence.PublicPathType, cadence.PrivatePathType:
+		return cadence.Path{Domain: pathDomainOf(p), Identifier: pick(g, []string{"a", "b", "aa", "ab", "vault", "x", "flowTokenReceiver"})}
+	case cadence.StringType:
+		return cadence.String(pick(g, []string{"", "a", "b", "aa", "ab", "ba", "abc", "z", "zz", "0123456789012345678901234", "é"}))
+	}
+	return nil
+}
+
+func pathDomainOf(p cadence.PrimitiveType) common.PathDomain {
+	switch p {
+	case cadence.PublicPathType:
+		return common.PathDomainPublic
+	case cadence.PrivatePathType:
+		return common.PathDomainPrivate
+	}
+	return common.PathDomainStorage
+}
+
+// Conformable reports whether the concrete primitive c may stand in a position
+// of (possibly abstract) static primitive type t.
+func Conformable(t cadence.Type, c cadence.PrimitiveType) bool {
+	p, ok := t.(cadence.PrimitiveType)
+	if !ok {
+		return false
+	}
+	switch p {
+	case cadence.HashableStructType, cadence.AnyStructType:
+		return true
+	case cadence.NumberType:
+		return isOneOf(c, NumberTypes)
+	case cadence.SignedNumberType:
+		return isOneOf(c, concat(SignedIntegerTypes, SignedFixedTypes))
+	case cadence.IntegerType:
+		return isOneOf(c, IntegerTypes)
+	case cadence.SignedIntegerType:
+		return isOneOf(c, SignedIntegerTypes)
+	case cadence.FixedSizeUnsignedIntegerType:
+		return isOneOf(c, FixedSizeUnsignedTypes)
+	case cadence.FixedPointType:
+		return isOneOf(c, FixedTypes)
+	case cadence.SignedFixedPointType:
+		return isOneOf(c, SignedFixedTypes)
+	case cadence.PathType:
+		return isOneOf(c, PathTypes)
+	case cadence.CapabilityPathType:
+		return isOneOf(c, PathTypes[1:])
+	}
+	return p == c
 }
 
 // KeyString is an injective rendering of hashable key values (used to keep
